@@ -4,7 +4,9 @@ source.  Emits
   Gen/Td0.lean      CRC16_POLY / CRC16_TOPBIT / CRC16_BITS (from the body of `crc16`), the masks, the 7 trailer
                     bytes `to_bytes` appends after the end-of-disk mark, the three `SectorEncoding` codes
   Gen/C09Const.lean WOZ chunk ids, IMD sector-code table (`get_sec_buf_size` arms) and map flags, 2MG header
-                    field layout (name, length) in declaration order, WOZ2 `Info`/`TMap`/`Trk` layouts
+                    field layout (name, length) in declaration order, WOZ2 `Info`/`TMap`/`Trk` layouts, whether WOZ
+                    `from_bytes` solves track 0 unconditionally (kind from the tracks, not from INFO), the value
+                    domains enumerated by `Info::verify_value`
 
 Everything is matched with anchored regular expressions; a construct that does not look as expected raises
 TranslatorError (reported by bin/check as a broken obligation, never skipped).
@@ -170,6 +172,39 @@ def _consts(repo):
     for st in ["Header", "Info", "TMap", "Trk"]:
         fl = _struct_fields(w1, st)
         items.append(("WOZ1_LEN_" + st.upper(), [], sum((cap if l == "TRACK_BYTE_CAPACITY" else int(l)) for _, l in fl)))
+    # WOZ: what decides the disk kind when a file is loaded.  `from_bytes` makes a first guess from INFO and must then
+    # solve track 0 UNCONDITIONALLY (the solution replaces the guess): 1 = the `if let .. get_track_solution(0)` is the
+    # first and only test, 0 = something stands in front of it
+    def _solves(src, what, anchor_re):
+        m = re.search(anchor_re, src, re.S)
+        if not m:
+            raise TranslatorError("%s: kind detection in from_bytes not found" % what)
+        head = re.sub(r"\s+", " ", m.group(1)).strip()
+        if "get_track_solution(0)" not in src[m.start():m.start() + 1500]:
+            raise TranslatorError("%s: from_bytes does not solve track 0 any more" % what)
+        return 1 if re.fullmatch(r"if let Ok\(Some\(\w+\)\) = ans\.get_track_solution\(0\) \{", head) else 0
+    items.append(("WOZ2_KIND_SOLVES_TRACK0", [], _solves(w2, "woz2.rs",
+        r"ans\.kind = match \(ans\.info\.disk_type,ans\.info\.boot_sector_format,ans\.info\.disk_sides\) \{.*?\};\s*(if[^{]*\{)")))
+    items.append(("WOZ1_KIND_SOLVES_TRACK0", [], _solves(w1, "woz1.rs",
+        r"if u32::from_le_bytes\(ans\.info\.id\)>0[^{]*ans\.info\.disk_type==1 \{\s*(if[^{]*\{)")))
+    # the value domains `Info::verify_value` enumerates (`stringify!(key) => hex_str=="00" || ...`), as byte values
+    def _domains(src, what, prefix):
+        body = _fn_body(src, r"fn verify_value\s*\(\s*&self\s*,\s*key\s*:\s*&str\s*,\s*hex_str\s*:\s*&str\s*\)\s*->\s*bool\s*\{", what + " Info::verify_value")
+        found = {}
+        for mm in re.finditer(r"stringify!\((\w+)\)\s*=>\s*((?:hex_str==\"[0-9a-fA-F]{2}\"\s*(?:\|\|\s*)?)+),", body):
+            vals = [int(x, 16) for x in re.findall(r"hex_str==\"([0-9a-fA-F]{2})\"", mm.group(2))]
+            found[mm.group(1)] = vals
+        return found
+    d2 = _domains(w2, "woz2.rs", "WOZ2")
+    for k in ["disk_type", "write_protected", "synchronized", "cleaned", "disk_sides", "boot_sector_format"]:
+        if k not in d2:
+            raise TranslatorError("woz2.rs verify_value: no enumerated domain for %s" % k)
+        items.append(("WOZ2_OK_" + k.upper(), [len(d2[k])], d2[k]))
+    d1 = _domains(w1, "woz1.rs", "WOZ1")
+    for k in ["disk_type", "write_protected", "synchronized", "cleaned"]:
+        if k not in d1:
+            raise TranslatorError("woz1.rs verify_value: no enumerated domain for %s" % k)
+        items.append(("WOZ1_OK_" + k.upper(), [len(d1[k])], d1[k]))
     srcs = ["src/img/woz.rs", "src/img/imd.rs", "src/img/dot2mg.rs", "src/img/woz2.rs", "src/img/woz1.rs"]
     return render_module("C09Const", items, srcs), digest([wpath, ipath, dpath, w2path, w1path])
 
